@@ -12,7 +12,12 @@ CLAIM = {
   "text": "Proved for every destination kind (plain, WriterAt, WriteSeeker, both), every write-buffer size including none, every caller data size and every chain length: the "
           "destination ends up holding exactly the concatenation of the sequences' final bytes (header with the final data size and CRC, records, file CRC), each Encode on a "
           "destination that already holds earlier sequences appends exactly its own sequence and changes nothing before it, the stream encoder (WriteMessage..., "
-          "SequenceCompleted) yields the same bytes, and those bytes are the ones of Model/Encoder.encode_fit (the byte-exact model of C01/C02). Per run: the model and the Go "
+          "SequenceCompleted) yields the same bytes, and those bytes are the ones of Model/Encoder.encode_fit (the byte-exact model of C01/C02). "
+          "The stream encoder is also modelled at message level (Model/Stream.v: WriteMessage = protocol validation, message validation with the declarations kept from "
+          "earlier calls, encoding with the LRU / timestamp reference / data size / CRC kept from earlier calls; SequenceCompleted = Encoder.reset as translated field by "
+          "field from the source on every run): C09_stream_message_level -- for EVERY chain of message lists it accepts the chain iff the batch encoder accepts every file and "
+          "then writes the same bytes; nothing leaks from one sequence into the next and interleaving validation with encoding changes nothing (the obligation "
+          "reset_complete_now breaks when reset stops clearing one of the six fields, or SequenceCompleted stops calling it). Per run: the model and the Go "
           "encoder agree on error flags and destination bytes for sampled configurations, and the Go encoder's output is identical over all 4 kinds x 6 buffer sizes x "
           "batch/stream x preset/zero data size for every generated input; a fresh encoder on a destination that already holds bytes appends exactly the same bytes for "
           "plain, seekable and seekable+write-at destinations (also a theorem: C09_batch_appends_to_earlier_content, C09_stream_appends_to_earlier_content).",
